@@ -255,7 +255,11 @@ func (l *Lexer) shiftRawText() []byte {
 					inScript := false
 					for {
 						c := l.r.Peek(0)
-						if c == '-' && l.r.Peek(1) == '-' && l.r.Peek(2) == '>' {
+						if 0 < len(l.tmplBegin) && l.at(l.tmplBegin...) {
+							l.r.Move(len(l.tmplBegin))
+							l.moveTemplate()
+							l.hasTmpl = true
+						} else if c == '-' && l.r.Peek(1) == '-' && l.r.Peek(2) == '>' {
 							l.r.Move(3)
 							break
 						} else if c == '<' {
@@ -308,6 +312,11 @@ func (l *Lexer) readMarkup() (TokenType, []byte) {
 			if l.r.Peek(0) == 0 && l.r.Err() != nil {
 				l.text = l.r.Lexeme()[4:]
 				return CommentToken, l.r.Shift()
+			} else if 0 < len(l.tmplBegin) && l.at(l.tmplBegin...) {
+				l.r.Move(len(l.tmplBegin))
+				l.moveTemplate()
+				l.hasTmpl = true
+				continue
 			} else if l.at('-', '-', '>') {
 				l.text = l.r.Lexeme()[4:]
 				l.r.Move(3)
@@ -325,6 +334,11 @@ func (l *Lexer) readMarkup() (TokenType, []byte) {
 			if l.r.Peek(0) == 0 && l.r.Err() != nil {
 				l.text = l.r.Lexeme()[9:]
 				return TextToken, l.r.Shift()
+			} else if 0 < len(l.tmplBegin) && l.at(l.tmplBegin...) {
+				l.r.Move(len(l.tmplBegin))
+				l.moveTemplate()
+				l.hasTmpl = true
+				continue
 			} else if l.at(']', ']', '>') {
 				l.text = l.r.Lexeme()[9:]
 				l.r.Move(3)
@@ -339,7 +353,12 @@ func (l *Lexer) readMarkup() (TokenType, []byte) {
 				l.r.Move(1)
 			}
 			for {
-				if c := l.r.Peek(0); c == '>' || c == 0 && l.r.Err() != nil {
+				if 0 < len(l.tmplBegin) && l.at(l.tmplBegin...) {
+					l.r.Move(len(l.tmplBegin))
+					l.moveTemplate()
+					l.hasTmpl = true
+					continue
+				} else if c := l.r.Peek(0); c == '>' || c == 0 && l.r.Err() != nil {
 					l.text = l.r.Lexeme()[9:]
 					if c == '>' {
 						l.r.Move(1)
@@ -356,7 +375,12 @@ func (l *Lexer) readMarkup() (TokenType, []byte) {
 func (l *Lexer) shiftBogusComment() []byte {
 	for {
 		c := l.r.Peek(0)
-		if c == '>' {
+		if 0 < len(l.tmplBegin) && l.at(l.tmplBegin...) {
+			l.r.Move(len(l.tmplBegin))
+			l.moveTemplate()
+			l.hasTmpl = true
+			continue
+		} else if c == '>' {
 			l.text = l.r.Lexeme()[2:]
 			l.r.Move(1)
 			return l.r.Shift()
@@ -509,7 +533,12 @@ func (l *Lexer) moveUnquotedAttrVal() {
 func (l *Lexer) shiftEndTag() []byte {
 	for {
 		c := l.r.Peek(0)
-		if c == '>' {
+		if 0 < len(l.tmplBegin) && l.at(l.tmplBegin...) {
+			l.r.Move(len(l.tmplBegin))
+			l.moveTemplate()
+			l.hasTmpl = true
+			continue
+		} else if c == '>' {
 			l.text = l.r.Lexeme()[2:]
 			l.r.Move(1)
 			break
